@@ -162,3 +162,58 @@ def eval_setup(desc, d, kinds):
     times = len({r[0] for r in desc["rows"] if r[1] > 0}) > 1
     irregular = len(set(b - a for a, b in zip(desc["fsteps"][:-1], desc["fsteps"][1:]))) > 1 or len(desc["fsteps"]) == 2
     return cases, problems, (moved and times and irregular)
+
+
+def eval_restart(desc, d, numrec):
+    """split run of the set-up (numrec records per file) and a restart from every file boundary.
+    Returns (Coq cases [tag 3: restart r + description + records of the restarted run in ITS numbering; tag 1:
+    the uninterrupted run], problems of the oracle (restarted records = the uninterrupted run's records after
+    the restart step), non-trivial?)"""
+    phys = physical(desc)
+    S, stop, files, rel = phys
+    rev = desc["rev"]
+    sg = -1 if rev else 1
+    name = "cold"
+    for f in d.glob(f"f_{name}_*.nc"):
+        f.unlink()
+    for k, fr in enumerate(files):
+        ul = [[u * CFAC[lev] for lev in range(si.NLEV)] for _, u, _ in fr]
+        tl = [[tt] * si.NLEV for _, _, tt in fr]
+        si.write_forcing(d, f"f_{name}_{k:03d}.nc", [x for x, _, _ in fr], ul, tl)
+    rf.write_release(d / f"r_{name}.rls", [[x, m, xx, 4.0, si.ZCLS[c]] for x, m, xx, c in rel])
+    env = {"p": desc["p"], "life": desc["life"]}
+    conf = si.config(d, env, S, stop, f"o_{name}.nc", f"r_{name}.rls", f"f_{name}_*.nc", rev=rev, numrec=numrec)
+    conf["release"]["names"] = ["release_time", "mult", "X", "Y", "Z"]
+    conf["grid"] = {"module": "ladim.ROMS", "filename": str(d / f"f_{name}_000.nc")}
+    rl.run_main(conf, d)
+    cfiles = sorted(d.glob(f"o_{name}_*.nc"), key=lambda p: int(p.stem.split("_")[-1]))
+    cold = si.records(cfiles, S, rev=rev)
+    cases = [[1] + enc_setup(desc, phys, rev) + enc_records(cold)]
+    problems, nontrivial = [], False
+    for fi in range(len(cfiles) - 1):
+        last = [r for r in cold if r["file"] == cfiles[fi].name][-1]
+        r = last["step"]
+        wconf = {k: (dict(v) if isinstance(v, dict) else v) for k, v in conf.items()}
+        wconf["time"] = dict(wconf["time"]); del wconf["time"]["start"]
+        wconf["output"] = dict(wconf["output"]); wconf["output"]["filename"] = str(d / f"w{fi}_{fi + 1:03d}.nc")
+        wconf["warm_start"] = {"filename": str(cfiles[fi]), "variables": ["age", "temp", "release_time"]}
+        try:
+            rl.run_main(wconf, d)
+        except BaseException as e:  # noqa: BLE001
+            problems.append(f"restart after {cfiles[fi].name} (step {r}) failed: {type(e).__name__}: {e}")
+            continue
+        wfiles = sorted(d.glob(f"w{fi}_*.nc"), key=lambda p: int(p.stem.split("_")[-1]))
+        t_restart = S + sg * r * DT
+        warm = si.records(wfiles, t_restart, rev=rev)  # steps counted from the restart
+        want = [x for x in cold if x["step"] > r]
+        if len(warm) != len(want):
+            problems.append(f"restart after step {r}: {len(warm)} records, the uninterrupted run writes {len(want)} after it")
+        for a, b in zip(want, warm):
+            if a["step"] != b["step"] + r or a["rows"] != b["rows"]:
+                problems.append(f"restart after step {r}: record {b['step']}+{r}: {b['rows']} != uninterrupted (step {a['step']}) {a['rows']}")
+        cases.append([3, r] + enc_setup(desc, phys, rev) + enc_records(warm))
+        p0 = {q for q, *_ in last["rows"]}
+        pw = {q for x in want for q, *_ in x["rows"]}
+        if (p0 - pw) and (pw - p0):
+            nontrivial = True  # particles die and are released after the restart
+    return cases, problems, nontrivial
